@@ -1,4 +1,318 @@
-(** C13 — property theorems (statements + [exact] + [Print Assumptions] only). *)
+(** C13 (part a: keys, separators, table well-formedness, block codec, block iterator) —
+    property theorems (statements + [exact] + [Print Assumptions] only), and non-vacuity examples.
+    *)
 From RainVerif Require Import Params.
 From RainVerif.model Require Import Bytes Key Block Table TableSpec.
+From RainVerif.proofs Require Import KeyProofs BlockProofs.
 Open Scope N_scope.
+
+(** * A. Orderings *)
+
+Theorem C13_bytes_cmp_eq_iff : forall a b, bytes_cmp a b = Eq <-> a = b.
+Proof. exact bytes_cmp_eq_iff. Qed.
+Print Assumptions C13_bytes_cmp_eq_iff.
+
+Theorem C13_bytes_cmp_opp : forall a b, bytes_cmp a b = CompOpp (bytes_cmp b a).
+Proof. exact bytes_cmp_opp. Qed.
+Print Assumptions C13_bytes_cmp_opp.
+
+Theorem C13_bytes_cmp_lt_trans : forall a b c,
+  bytes_cmp a b = Lt -> bytes_cmp b c = Lt -> bytes_cmp a c = Lt.
+Proof. exact bytes_cmp_lt_trans. Qed.
+Print Assumptions C13_bytes_cmp_lt_trans.
+
+Theorem C13_ikey_cmp_eq_iff : forall a b,
+  ikey_cmp a b = Eq <-> ik_user a = ik_user b /\ ik_seq a = ik_seq b.
+Proof. exact ikey_cmp_eq_iff. Qed.
+Print Assumptions C13_ikey_cmp_eq_iff.
+
+Theorem C13_ikey_cmp_opp : forall a b, ikey_cmp a b = CompOpp (ikey_cmp b a).
+Proof. exact ikey_cmp_opp. Qed.
+Print Assumptions C13_ikey_cmp_opp.
+
+Theorem C13_ikey_lt_trans : forall a b c, ikey_lt a b -> ikey_lt b c -> ikey_lt a c.
+Proof. exact ikey_lt_trans. Qed.
+Print Assumptions C13_ikey_lt_trans.
+
+Theorem C13_ikey_le_lt_trans : forall a b c, ikey_le a b -> ikey_lt b c -> ikey_lt a c.
+Proof. exact ikey_le_lt_trans. Qed.
+Print Assumptions C13_ikey_le_lt_trans.
+
+Theorem C13_ikey_lt_le_trans : forall a b c, ikey_lt a b -> ikey_le b c -> ikey_lt a c.
+Proof. exact ikey_lt_le_trans. Qed.
+Print Assumptions C13_ikey_lt_le_trans.
+
+Theorem C13_ikey_le_trans : forall a b c, ikey_le a b -> ikey_le b c -> ikey_le a c.
+Proof. exact ikey_le_trans. Qed.
+Print Assumptions C13_ikey_le_trans.
+
+Theorem C13_ikey_cmp_eq_compat_l : forall a b c,
+  ikey_cmp a b = Eq -> ikey_cmp a c = ikey_cmp b c.
+Proof. exact ikey_cmp_eq_compat_l. Qed.
+Print Assumptions C13_ikey_cmp_eq_compat_l.
+
+Theorem C13_ikey_cmp_eq_compat_r : forall a b c,
+  ikey_cmp b c = Eq -> ikey_cmp a b = ikey_cmp a c.
+Proof. exact ikey_cmp_eq_compat_r. Qed.
+Print Assumptions C13_ikey_cmp_eq_compat_r.
+
+(** [PartialEq] on internal keys is field-wise equality, hence implies order-equivalence *)
+Theorem C13_ikey_eqb_iff : forall a b, ikey_eqb a b = true <-> a = b.
+Proof. exact ikey_eqb_iff. Qed.
+Print Assumptions C13_ikey_eqb_iff.
+
+(** * B. Separators, successors, key codec *)
+
+Theorem C13_separator_between : forall a b,
+  bytes_cmp a b = Lt ->
+  bytes_cmp a (bytes_separator a b) <> Gt /\ bytes_cmp (bytes_separator a b) b = Lt.
+Proof. exact bytes_separator_between. Qed.
+Print Assumptions C13_separator_between.
+
+Theorem C13_successor_ge : forall a, bytes_cmp a (bytes_successor a) <> Gt.
+Proof. exact bytes_successor_ge. Qed.
+Print Assumptions C13_successor_ge.
+
+Theorem C13_separator_is_bytes : forall a b, is_bytes a -> is_bytes (bytes_separator a b).
+Proof. exact bytes_separator_is_bytes. Qed.
+Print Assumptions C13_separator_is_bytes.
+
+Theorem C13_successor_is_bytes : forall a, is_bytes a -> is_bytes (bytes_successor a).
+Proof. exact bytes_successor_is_bytes. Qed.
+Print Assumptions C13_successor_is_bytes.
+
+(** field bounds: [ikey_bounded k := ik_seq k < 2^64 /\ ik_op k <= 1]; the user key is
+    unconstrained (byte-ness is not needed anywhere) *)
+Theorem C13_ikey_codec : forall k,
+  ik_seq k < 18446744073709551616 /\ ik_op k <= 1 -> ikey_decode (ikey_encode k) = Some k.
+Proof. exact ikey_decode_encode. Qed.
+Print Assumptions C13_ikey_codec.
+
+Theorem C13_ikey_separator_between : forall a b,
+  ik_seq a < 18446744073709551616 /\ ik_op a <= 1 -> ikey_cmp a b = Lt ->
+  exists sb k,
+    ikey_separator a b = Some sb /\ ikey_decode sb = Some k /\
+    ikey_le a k /\ ikey_lt k b /\
+    (ikey_cmp a k = Eq \/ bytes_ltb (ik_user k) (ik_user b) = true).
+Proof. exact ikey_separator_between. Qed.
+Print Assumptions C13_ikey_separator_between.
+
+Theorem C13_ikey_successor_ge : forall a,
+  ik_seq a < 18446744073709551616 /\ ik_op a <= 1 ->
+  exists sb k, ikey_successor a = Some sb /\ ikey_decode sb = Some k /\ ikey_le a k.
+Proof. exact ikey_successor_ge. Qed.
+Print Assumptions C13_ikey_successor_ge.
+
+(** * C. Every cut of a strictly sorted entry list builds a well-formed table *)
+
+Theorem C13_index_ok : forall es sizes,
+  sorted_entries es = true ->
+  Forall (fun e => ik_seq (fst e) < 18446744073709551616 /\ ik_op (fst e) <= 1) es ->
+  exists t, table_build es sizes = Some t /\ table_wf t es /\
+            length (t_index t) = length (t_blocks t) /\
+            Forall (fun b => b <> []) (t_blocks t).
+Proof. exact table_build_wf. Qed.
+Print Assumptions C13_index_ok.
+
+Theorem C13_table_build_nil : forall sizes, table_build [] sizes = Some (mkTable [] []).
+Proof. exact table_build_nil. Qed.
+Print Assumptions C13_table_build_nil.
+
+(** * D. Block encode / decode round trip *)
+
+Theorem C13_varint32_roundtrip : forall n rest,
+  n < 4294967296 -> varint32_dec (varint32 n ++ rest) = Some (n, length (varint32 n)).
+Proof. exact varint32_dec_enc. Qed.
+Print Assumptions C13_varint32_roundtrip.
+
+(** prefix compression: the stored suffix and the shared length rebuild the key *)
+Theorem C13_prefix_rebuild : forall last kb,
+  firstn (common_prefix_len last kb) last ++ skipn (common_prefix_len last kb) kb = kb.
+Proof. exact cpl_rebuild. Qed.
+Print Assumptions C13_prefix_rebuild.
+
+(** No ordering hypothesis is needed. [es <> []] and [0 < ri] are necessary: see
+    [C13_block_empty_not_decodable] and [C13_block_ri0_not_decodable]. *)
+Theorem C13_block_roundtrip : forall ri es,
+  0 < ri -> es <> [] ->
+  Forall (fun e => ik_seq (fst e) < 18446744073709551616 /\ ik_op (fst e) <= 1) es ->
+  blen (block_encode ri es) < 4294967296 ->
+  block_decode (block_encode ri es) = DOk es.
+Proof. exact block_decode_encode. Qed.
+Print Assumptions C13_block_roundtrip.
+
+Theorem C13_data_block_roundtrip : forall es,
+  es <> [] ->
+  Forall (fun e => ik_seq (fst e) < 18446744073709551616 /\ ik_op (fst e) <= 1) es ->
+  blen (data_block_encode es) < 4294967296 ->
+  block_decode (data_block_encode es) = DOk es.
+Proof. exact data_block_decode_encode. Qed.
+Print Assumptions C13_data_block_roundtrip.
+
+(** every data block of a built table and its index block (restart interval 1) round-trip *)
+Theorem C13_table_blocks_roundtrip : forall es sizes t,
+  sorted_entries es = true ->
+  Forall (fun e => ik_seq (fst e) < 18446744073709551616 /\ ik_op (fst e) <= 1) es ->
+  table_build es sizes = Some t ->
+  (forall b, In b (t_blocks t) ->
+     blen (data_block_encode b) < 4294967296 ->
+     block_decode (data_block_encode b) = DOk b) /\
+  (es <> [] -> blen (block_encode 1 (t_index t)) < 4294967296 ->
+     block_decode (block_encode 1 (t_index t)) = DOk (t_index t)).
+Proof. exact table_blocks_roundtrip. Qed.
+Print Assumptions C13_table_blocks_roundtrip.
+
+(** finding: the block written for an empty entry list is rejected by the reader (one
+    pre-pushed restart offset, no entry to match it) *)
+Theorem C13_block_empty_not_decodable : forall ri, block_decode (block_encode ri []) = DErr.
+Proof. exact block_decode_encode_nil. Qed.
+Print Assumptions C13_block_empty_not_decodable.
+
+Theorem C13_block_ri0_not_decodable :
+  block_decode (block_encode 0 [(mkIKey [1] 5 1, [7])]) = DErr.
+Proof. exact block_decode_encode_ri0. Qed.
+Print Assumptions C13_block_ri0_not_decodable.
+
+(** * E. BlockIter refines the sorted-list cursor *)
+
+Theorem C13_block_search_lower_bound : forall es target,
+  sorted_entries es = true ->
+  bi_search es (S (length es)) 0 (length es) target =
+  length (filter (fun e => ikey_ltb (fst e) target) es).
+Proof. exact bi_search_count. Qed.
+Print Assumptions C13_block_search_lower_bound.
+
+Theorem C13_block_seek_current : forall es i target,
+  sorted_entries es = true ->
+  nth_error es (bi_seek es i target) = lc_current es (lc_seek es target).
+Proof. exact bi_seek_current. Qed.
+Print Assumptions C13_block_seek_current.
+
+(** single steps under the representation [bi_rep es i p]:
+    [p = Some j -> i = j /\ j < length es], [p = None -> length es <= i] *)
+Theorem C13_block_iter_step : forall es i p o,
+  sorted_entries es = true -> bi_rep es i p -> (es <> [] \/ o <> CLast) ->
+  exists i', bi_step es i o = Some i' /\ bi_rep es i' (lc_step es p o).
+Proof. exact bi_step_refines. Qed.
+Print Assumptions C13_block_iter_step.
+
+Theorem C13_block_iter_current : forall es i p,
+  bi_rep es i p -> bi_current es i = lc_current es p.
+Proof. exact bi_rep_current. Qed.
+Print Assumptions C13_block_iter_current.
+
+(** whole scripts, from a fresh iterator; [seek_to_last] on an empty block panics
+    ([C13_block_iter_empty_last]) and is excluded *)
+Theorem C13_block_iter_refines : forall es ops,
+  sorted_entries es = true -> (es <> [] \/ ~ In CLast ops) ->
+  bi_run es 0 ops = (lc_run es (lc_first es) ops, true).
+Proof. exact block_iter_refines. Qed.
+Print Assumptions C13_block_iter_refines.
+
+Theorem C13_block_iter_refines_from : forall es, sorted_entries es = true ->
+  forall ops i p, bi_rep es i p -> (es <> [] \/ ~ In CLast ops) ->
+  bi_run es i ops = (lc_run es p ops, true).
+Proof. exact bi_run_refines. Qed.
+Print Assumptions C13_block_iter_refines_from.
+
+Theorem C13_block_iter_empty_last : forall i, bi_step [] i CLast = None.
+Proof. exact block_iter_empty_last. Qed.
+Print Assumptions C13_block_iter_empty_last.
+
+(** * F. Non-vacuity examples *)
+
+(** B: byte-string separators / successors *)
+Example C13_ex_sep_empty : bytes_separator [] [1] = [].
+Proof. vm_compute. reflexivity. Qed.
+Example C13_ex_sep_one_byte : bytes_separator [97] [99] = [98].
+Proof. vm_compute. reflexivity. Qed.
+Example C13_ex_sep_adjacent : bytes_separator [97] [98] = [97].
+Proof. vm_compute. reflexivity. Qed.
+Example C13_ex_sep_prefix : bytes_separator [98;97;116] [98;97;116;109] = [98;97;116].
+Proof. vm_compute. reflexivity. Qed.
+Example C13_ex_sep_shared : bytes_separator [98;97;116;1;9] [98;97;116;7] = [98;97;116;2].
+Proof. vm_compute. reflexivity. Qed.
+Example C13_ex_sep_ff_run : bytes_separator [255;255;3;7] [255;255;9] = [255;255;4].
+Proof. vm_compute. reflexivity. Qed.
+Example C13_ex_sep_ff_diff : bytes_separator [1;255;2] [2] = [1;255;2].
+Proof. vm_compute. reflexivity. Qed.
+Example C13_ex_succ_empty : bytes_successor [] = [].
+Proof. vm_compute. reflexivity. Qed.
+Example C13_ex_succ_ff_run : bytes_successor [255;255] = [255;255].
+Proof. vm_compute. reflexivity. Qed.
+Example C13_ex_succ_ff_then : bytes_successor [255;255;3;9] = [255;255;4].
+Proof. vm_compute. reflexivity. Qed.
+
+(** B: internal keys; the hypotheses of [C13_ikey_separator_between] hold and the separator
+    is really shortened / really kept *)
+Example C13_ex_isep_shortened :
+  ikey_cmp (mkIKey [114;121;117] 7 1) (mkIKey [116;117;109] 3 0) = Lt /\
+  ikey_separator (mkIKey [114;121;117] 7 1) (mkIKey [116;117;109] 3 0) =
+    Some (ikey_encode (mkIKey [115] MAX_SEQ OP_PUT)) /\
+  ikey_decode (ikey_encode (mkIKey [115] MAX_SEQ OP_PUT)) = Some (mkIKey [115] MAX_SEQ OP_PUT).
+Proof. vm_compute. repeat split. Qed.
+Example C13_ex_isep_same_user :
+  ikey_cmp (mkIKey [97;98] 9 1) (mkIKey [97;98] 4 1) = Lt /\
+  ikey_separator (mkIKey [97;98] 9 1) (mkIKey [97;98] 4 1) = Some (ikey_encode (mkIKey [97;98] 9 1)).
+Proof. vm_compute. repeat split. Qed.
+Example C13_ex_isep_empty_user :
+  ikey_cmp (mkIKey [] 9 0) (mkIKey [0] 4 1) = Lt /\
+  ikey_separator (mkIKey [] 9 0) (mkIKey [0] 4 1) = Some (ikey_encode (mkIKey [] 9 0)) /\
+  ikey_decode (ikey_encode (mkIKey [] 9 0)) = Some (mkIKey [] 9 0).
+Proof. vm_compute. repeat split. Qed.
+Example C13_ex_isep_ff_run :
+  ikey_separator (mkIKey [255;255;3;7] 2 1) (mkIKey [255;255;9] 1 1) =
+    Some (ikey_encode (mkIKey [255;255;4] MAX_SEQ OP_PUT)).
+Proof. vm_compute. reflexivity. Qed.
+Example C13_ex_isucc_shortened :
+  ikey_successor (mkIKey [98;97;116] 3 1) = Some (ikey_encode (mkIKey [99] MAX_SEQ OP_PUT)).
+Proof. vm_compute. reflexivity. Qed.
+Example C13_ex_isucc_ff :
+  ikey_successor (mkIKey [255] 3 0) = Some (ikey_encode (mkIKey [255] 3 0)) /\
+  ikey_successor (mkIKey [255;255;1] 3 0) = Some (ikey_encode (mkIKey [255;255;1] 3 0)) /\
+  ikey_successor (mkIKey [255;255;1;1] 3 0) = Some (ikey_encode (mkIKey [255;255;2] MAX_SEQ OP_PUT)).
+Proof. vm_compute. repeat split. Qed.
+
+(** C: a 40-entry list satisfies the hypotheses and is cut into 4 blocks *)
+Example C13_ex_table_hyps :
+  sorted_entries (ex_entries 40) = true /\ entries_boundedb (ex_entries 40) = true.
+Proof. vm_compute. split; reflexivity. Qed.
+Example C13_ex_table_build :
+  option_map (fun t => (map (@length entry) (t_blocks t), length (t_index t)))
+             (table_build (ex_entries 40) [9; 14; 0]%nat)
+  = Some ([10; 15; 1; 14]%nat, 4%nat).
+Proof. vm_compute. reflexivity. Qed.
+
+(** D: 40-entry blocks with restart intervals 16 (3 restart points) and 1 (40) *)
+Example C13_ex_block_hyps :
+  blen (block_encode 16 (ex_entries 40)) < 4294967296 /\
+  blen (block_encode 1 (ex_entries 40)) < 4294967296.
+Proof. vm_compute. split; reflexivity. Qed.
+Example C13_ex_block_roundtrip_16 :
+  block_decode (block_encode 16 (ex_entries 40)) = DOk (ex_entries 40) /\
+  le_decode (dropN (blen (block_encode 16 (ex_entries 40)) - 4)
+                   (block_encode 16 (ex_entries 40))) = 3.
+Proof. vm_compute. split; reflexivity. Qed.
+Example C13_ex_block_roundtrip_1 :
+  block_decode (block_encode 1 (ex_entries 40)) = DOk (ex_entries 40) /\
+  le_decode (dropN (blen (block_encode 1 (ex_entries 40)) - 4)
+                   (block_encode 1 (ex_entries 40))) = 40.
+Proof. vm_compute. split; reflexivity. Qed.
+(** prefix compression really happens with interval 16 *)
+Example C13_ex_block_compressed :
+  blen (block_encode 16 (ex_entries 40)) < blen (block_encode 1 (ex_entries 40)).
+Proof. vm_compute. reflexivity. Qed.
+
+(** E: a script over the 40-entry block, including the seek shortcut, both ends and a miss *)
+Example C13_ex_block_iter :
+  bi_run (ex_entries 40) 0
+    [CSeek (fst (ex_entry 17)); CSeek (fst (ex_entry 17)); CNext; CPrev; CPrev;
+     CSeek (mkIKey [107; 49; 50] 5000 1); CLast; CNext; CNext; CPrev; CFirst; CPrev;
+     CSeek (mkIKey [108] 1 1); CSeek (mkIKey [] 1 1)]
+  = (lc_run (ex_entries 40) (lc_first (ex_entries 40))
+    [CSeek (fst (ex_entry 17)); CSeek (fst (ex_entry 17)); CNext; CPrev; CPrev;
+     CSeek (mkIKey [107; 49; 50] 5000 1); CLast; CNext; CNext; CPrev; CFirst; CPrev;
+     CSeek (mkIKey [108] 1 1); CSeek (mkIKey [] 1 1)], true) /\
+  nth_error (fst (bi_run (ex_entries 40) 0 [CSeek (fst (ex_entry 17))])) 0
+    = Some (Some (ex_entry 17)).
+Proof. vm_compute. split; reflexivity. Qed.
